@@ -245,6 +245,7 @@ def handle : Handler := fun j => do
     pure (Json.mkObj [("sha", Json.str (Sha256.hex (Sha256.sha256 (unhex h.toList))))])
   | "v1" => pure (Json.mkObj [("unmodelled", "legacy v1 rows (migrations_v1.go)")])
   | "ikbytes" => pure (Json.mkObj [("unmodelled", "a Go string that is not valid UTF-8")])
+  | "keybytes" => pure (Json.mkObj [("unmodelled", "bytes of an HTTP request line (possibly not valid UTF-8)")])
   | _ => throw s!"unknown kind {kind}"
 
 end Driver.LogD
